@@ -245,4 +245,16 @@ theorem C06_order_can_be_violated :
   ⟨(runFuel C06_orderP 2000 C06_orderC).1, reach_runFuel _ _ _ _ .init, by decide, by decide, by decide +kernel,
     by decide +kernel⟩
 
+/-- **`NoForge` is needed** for "intact": an application that enqueues an `InputReceivedSignal` of its own
+(the program of `C18_one_reader_needs_NoForge`) gets the empty line — which nobody typed — handed to the screen's
+`input` method. -/
+def C06_forgeP : Prog := { cc := asciiClass, screens := [{ name := ['A'] }] }
+def C06_forgeC : Cfg := initCfg [.schedule 0 none, .enq .inputReceived 0 .none 7] [] none []
+
+theorem C06_line_intact_needs_NoForge :
+    ∃ c, Reach C06_forgeP C06_forgeC c ∧ UserHandlers C06_forgeC ∧
+      inputLines c.log = [[]] ∧ readLines c.log = [] :=
+  ⟨(runFuel C06_forgeP 60 C06_forgeC).1, reach_runFuel _ _ _ _ .init, by decide, by decide +kernel,
+    by decide +kernel⟩
+
 end Simpleline
